@@ -3,6 +3,7 @@ mod child;
 mod common;
 mod comp;
 mod crash;
+mod multi;
 mod rt;
 mod sched;
 mod schk;
@@ -35,6 +36,7 @@ fn main() {
         let end: u64 = args.get(5).and_then(|s| s.parse().ok()).unwrap_or(0);
         let code = match id.as_str() {
             "C25" => comp::c25_child(&fam, start, end),
+            "C10" => multi::c10_child(args.get(4).map(|s| s.as_str()).unwrap_or("")),
             _ => 2,
         };
         std::process::exit(code);
@@ -68,6 +70,7 @@ fn main() {
         "C09" => schk::c09(tier),
         "C29" => schk::c29(tier),
         "C35" => schk::c35(tier),
+        "C10" => multi::c10(tier),
         "C04" => seq::c04(tier),
         "C05" => seq::c05(tier),
         "C06" => seq::c06(tier),
